@@ -399,6 +399,59 @@ def run_case(c, Pm):
 # ---------------------------------------------------------------------------
 # non-mutating operations rejected for the same reasons; documented options
 # ---------------------------------------------------------------------------
+def settings(x):
+    """the per-object settings that are not values: pickle digits / reference (and those of the derivatives)"""
+    out = []
+    for o in [x] + [d for _, d in sorted(x.derivs.items())]:
+        try:
+            out.append((repr(o.pickle_digits()), repr(o.pickle_reference())))
+        except Exception as e:      # noqa
+            out.append(('exc', type(e).__name__))
+    return out
+
+
+def rejected_mutations(Pm):
+    """(name, maker of the target, action expected to be rejected): products whose operand has the target's own class
+    (the class-specific branches of *=), with a fault in the leading shape or the item shape and units arriving through
+    the operand (seeded change C19-L); invalid pickle settings next to valid ones (seeded change C19-M)"""
+    A = np.array
+    U = Pm.Units
+    def M(lead=(2,), item=(2, 2), units=None, deriv=False):
+        x = Pm.Matrix(np.arange(int(np.prod(lead + item)), dtype=float).reshape(lead + item) + 1., units=units)
+        if deriv:
+            x.insert_deriv('t', Pm.Matrix(np.ones(lead + item)))
+        return x
+    def Q(lead=(2,)):
+        return Pm.Quaternion(np.arange(int(np.prod(lead)) * 4, dtype=float).reshape(lead + (4,)) + 1.)
+    def P_(lead=(2,), order=1):
+        return Pm.Polynomial(np.arange(int(np.prod(lead)) * (order + 1), dtype=float).reshape(lead + (order + 1,)) + 1.)
+    def S_(n=3, units=None):
+        x = Pm.Scalar(np.arange(float(n)) + 1., units=units)
+        x.insert_deriv('t', Pm.Scalar(np.ones(n)))
+        return x
+    out = []
+    for tu in (None, U.KM):
+        for au in (None, U.SEC, U.KM):
+            tag = 'units %s <- %s' % (tu and 'km', au and str(au))
+            out += [('Matrix(2,) *= Matrix(3,) ' + tag, lambda tu=tu: M(units=tu, deriv=True), lambda x, au=au: x.__imul__(M((3,), units=au))),
+                    ('Matrix 2x2 *= Matrix 2x3 ' + tag, lambda tu=tu: M(units=tu), lambda x, au=au: x.__imul__(M(item=(2, 3), units=au))),
+                    ('Matrix 2x2 *= Matrix 3x2 ' + tag, lambda tu=tu: M(units=tu), lambda x, au=au: x.__imul__(M(item=(3, 2), units=au))),
+                    ('Matrix() *= Matrix(2,) ' + tag, lambda tu=tu: M((), units=tu), lambda x, au=au: x.__imul__(M((2,), units=au))),
+                    ('Matrix(2,) /= Matrix(3,) ' + tag, lambda tu=tu: M(units=tu), lambda x, au=au: x.__itruediv__(M((3,), units=au)))]
+    out += [('Quaternion(2,) *= Quaternion(3,)', Q, lambda x: x.__imul__(Q((3,)))),
+            ('Quaternion() *= Quaternion(2,)', lambda: Q(()), lambda x: x.__imul__(Q((2,)))),
+            ('Polynomial(2,) *= Polynomial(3,)', P_, lambda x: x.__imul__(P_((3,)))),
+            ('Polynomial(2,) += Polynomial(3,)', P_, lambda x: x.__iadd__(P_((3,)))),
+            ('Polynomial() -= Polynomial(2,)', lambda: P_(()), lambda x: x.__isub__(P_((2,)))),
+            ('Matrix3(2,) *= Matrix3(3,)', lambda: Pm.Matrix3(np.stack([np.eye(3)] * 2)), lambda x: x.__imul__(Pm.Matrix3(np.stack([np.eye(3)] * 3))))]
+    # pickle settings: invalid digits with a valid reference, a valid digits value with an invalid reference, ...
+    for dig, ref in ((0, 'smallest'), ('nonsense', 'largest'), (25.5, 'mean'), (7, 'nonsense'), ((7,), 'median'),
+                     ((7, 'bad'), ('mean', 'mean')), ((7, 7), ('mean', 'bad')), (-3, 1.0), (8, -1.0), (8, 0.0)):
+        out.append(('set_pickle_digits(%r, %r)' % (dig, ref), S_, lambda x, dig=dig, ref=ref: x.set_pickle_digits(dig, ref)))
+    out.append(('set_units(SEC) on km with deriv', lambda: S_(units=U.KM), lambda x: x.set_units(U.SEC)))
+    return out
+
+
 def option_calls(Pm):
     A = np.array
     S = Pm.Scalar
@@ -614,6 +667,26 @@ def run(ctx):
         if out[0] == 'exc' and out[1] not in ALLOWED:
             ctx.fail({'what': 'wrong-exception-family', 'option_call': name, 'exc': out[1], 'site': out[2]}, c,
                      {'outcome': out})
+    # ---- class-specific products and settings: a rejected call leaves the target as it was, settings included
+    for name, mk, act in rejected_mutations(Pm):
+        x = mk()
+        before = (snap(x), settings(x))
+        with warnings.catch_warnings():
+            warnings.simplefilter('ignore')
+            try:
+                act(x)
+                out = ('ok',)
+            except Exception as e:      # noqa
+                nm, site = family(e)
+                out = ('exc', nm, site)
+        c = {'rejected_mutation': name}
+        ctx.note_case(c, True)
+        ctx.count('rejected_mutation:' + out[0])
+        if out[0] == 'exc' and (snap(x), settings(x)) != before:
+            ctx.fail({'what': 'target-changed-by-rejected-operation', 'rejected_mutation': name, 'exc': out[1], 'site': out[2]},
+                     c, {'outcome': out, 'before': str(before[1]), 'after': str(settings(x))})
+        if out[0] == 'exc' and out[1] not in ALLOWED:
+            ctx.fail({'what': 'wrong-exception-family', 'rejected_mutation': name, 'exc': out[1], 'site': out[2]}, c, {'outcome': out})
     # ---- the API sweep: a public call whose arguments are all of the documented types never crashes
     sweep_part(ctx, Pm)
     ctx.exhaustive = ctx.tier == 'thorough'
